@@ -190,8 +190,8 @@ def render(s):
             for d in n["dflts"]: t += '%sdefault "%s";\n' % (i2, d)
             if n["config"] is not None: t += "%sconfig %s;\n" % (i2, "true" if n["config"] else "false")
             if n["mand"] is not None: t += "%smandatory %s;\n" % (i2, "true" if n["mand"] else "false")
-            if n["setmin"]: t += "%smin-elements %d;\n" % (i2, n["min"])
-            if n["setmax"]: t += "%smax-elements %s;\n" % (i2, n["max"] if n["max"] else "unbounded")
+            if n["setmin"] or n["min"]: t += "%smin-elements %d;\n" % (i2, n["min"])       # a refine sets the value, not the LYS_SET_* flag
+            if n["setmax"] or n["max"]: t += "%smax-elements %s;\n" % (i2, n["max"] if n["max"] else "unbounded")
             if n["status"]: t += "%sstatus %s;\n" % (i2, STATUS[n["status"]])
             for c in n["kids"]: t += node(c, i2)
             return t + "%s}\n" % ind
@@ -755,6 +755,10 @@ def run_exp(cx):
         cx.count((nm, rend, o, ex), True, "c11exp:%s:%s:%s" % (rend, tag.split(":")[0], verdict))
         if a[:2] == ["err", "Crash"] or a[:2] == ["err", "Timeout"]:
             continue
+        if rend == "flattened":
+            # two `when` statements (node + uses / augment) cannot be written on one node: the count is compared as 0 / >= 1
+            clamp = lambda t: re.sub(r"\|[1-9][0-9]*$", "|1", t)
+            a, b = [clamp(t) for t in a], [clamp(t) for t in b]
         if a != b:
             cx.disagree("compile", hlines[int(hid)] + "  ## " + rend + " " + tag + " ## model: " + mlines[int(mid)][:2000], a, b)
     # the model's own law: compile = compile of the expansion; and it never runs out of fuel
